@@ -535,6 +535,8 @@ type ToNCOut struct {
 	Types      []string `json:"types"` // values of the instance-type requirement, sorted
 	PoolLabel  string   `json:"pool_label"`
 	MaxUsed    int      `json:"max_used"` // the value MaxInstanceTypes had during the call
+	// PoolReq: values of the NodeClaim's requirement karpenter.sh/nodepool In [...], sorted; null = it has none
+	PoolReq *[]string `json:"pool_req"`
 }
 
 var maxTypesMu sync.RWMutex // MaxInstanceTypes is a package variable of the real code: writers set it for one case, readers only run passes
@@ -597,6 +599,11 @@ func implToNC(raw json.RawMessage) (any, error) {
 		if r.Key == itKey {
 			out.HasTypeReq = true
 			out.Types = append(out.Types, r.Values...)
+		}
+		if r.Key == v1.NodePoolLabelKey && r.Operator == corev1.NodeSelectorOpIn {
+			vs := append([]string{}, r.Values...)
+			sort.Strings(vs)
+			out.PoolReq = &vs
 		}
 	}
 	sort.Strings(out.Types)
@@ -842,7 +849,7 @@ func Ops() []*core.Op {
 		},
 		{
 			Name: "c19.tonodeclaim",
-			Doc:  "NewNodeClaimTemplate(nodePool).ToNodeClaim(): the instance-type requirement of the NodeClaim = the MaxInstanceTypes cheapest options (package variable set to small values, and the real default 600 against catalogs of 595..606 types); static pools get none",
+			Doc:  "NewNodeClaimTemplate(nodePool).ToNodeClaim(): the instance-type requirement of the NodeClaim = the MaxInstanceTypes cheapest options (package variable set to small values, and the real default 600 against catalogs of 595..606 types); static pools get none; the NodeClaim requires karpenter.sh/nodepool In [its pool] (the template requirement derived from the injected label)",
 			N:    n(1500, 15000),
 			Gen:  genToNC,
 			Impl: implToNC,
